@@ -260,29 +260,32 @@ def impatient_clients(args, scratch):
     await it has reached: queued actor messages lose their requester), mixed with patient probes; the status task runs on a short interval
     so that the status actor is busy. Oracles: no panic anywhere in the process, probes are served during and after the storm, and the
     status file keeps being rewritten."""
-    import os, threading
+    import os, socket, threading
     res = {"evaluations": 0, "nontrivial": [], "samples": [], "counts": {}, "violations": []}
     cnt = res["counts"]
     lock = threading.Lock()
-    w = wproxy.World(scratch, runtime="multi:%d" % args["rt_threads"])
+    # hook H3: the actors sometimes take 0-3 ms before they answer a message (as when their task is not scheduled), so that a
+    # requester can be gone by then
+    env = {"GPA_VERIF_DELAY": "actor_agent_status:250:3000,actor_key_keeper:250:3000,actor_proxy_server:250:3000,actor_provision:250:3000", "GPA_VERIF_DELAY_SEED": str(args["shard"] + 11)}
+    w = wproxy.World(scratch, runtime="multi:%d" % args["rt_threads"], env=env if args.get("actor_delays", True) else None)
     status_dir = scratch + "/status"
     try:
         w.key("ffffffff-0000-4000-8000-000000000002", "%064x" % common.rng("c13-imp-key").getrandbits(256))
         w.shim.call("status_task_start", dir=status_dir, interval_ms=5)
         root = w.identity("root", "helper", [])
         w.rules("imds", {"defaultAccess": "deny", "mode": "audit", "id": "imp"})
-        stop = threading.Event()
         probe_fail = []
 
-        def storm(ti):
-            rr = common.rng("c13-imp", args["shard"], ti)
-            for k in range(args["per_thread"]):
-                if stop.is_set():
-                    break
+        def burst(ti, rnd):
+            # one unpaced burst: the accept queue and the status actor's queue fill up, so handler futures are dropped while their
+            # actor messages are still queued. Bursts are bounded (threads x burst < listen backlog) and separated by a served probe,
+            # so the listener is never driven into SYN drops (slowness is not what is being judged).
+            rr = common.rng("c13-imp", args["shard"], ti, rnd)
+            for k in range(args["burst"]):
                 try:
-                    c = w.open(rr.choice(["imds", "other"]), root, timeout=3)
-                    c.send(rawhttp.build_request(rr.choice(["GET", "POST"]), "/imp/%d/%d?x=%d" % (ti, k, k), [("x-vf-id", "imp-%d-%d" % (ti, k)), ("content-length", "0")]))
-                    mode = k % 4
+                    c = w.open(rr.choice(["imds", "other"]), root, timeout=5)
+                    c.send(rawhttp.build_request(rr.choice(["GET", "POST"]), "/imp/%d/%d?x=%d" % (ti, rnd, k), [("x-vf-id", "imp-%d-%d-%d" % (ti, rnd, k)), ("content-length", "0")]))
+                    mode = (k + rnd) % 4
                     if mode == 1:
                         time.sleep(rr.random() * 0.0003)
                     elif mode == 2:
@@ -294,38 +297,46 @@ def impatient_clients(args, scratch):
                     with lock:
                         cnt["impatient_client_errors"] = cnt.get("impatient_client_errors", 0) + 1
 
-        def prober():
-            n = 0
-            while not stop.is_set():
-                n += 1
-                try:
-                    # source ports outside the ephemeral range: a record injected for a probe cannot be consumed by the late accept of
-                    # an aborted storm connection that used the same (recycled) ephemeral port
-                    c = w.open("other", root, timeout=10, src_port=20000 + n)
-                    c.send(rawhttp.build_request("GET", "/probe/%d" % n, [("x-vf-id", "imp-probe-%d" % n)]))
-                    st = c.read_response().status
-                    c.close()
-                    if st != 200:
-                        probe_fail.append({"probe": n, "status": st})
-                except Exception as e:  # noqa
-                    probe_fail.append({"probe": n, "error": repr(e)})
-                with lock:
-                    cnt["patient_probes"] = cnt.get("patient_probes", 0) + 1
-                time.sleep(0.01)
-        ts = [threading.Thread(target=storm, args=(i,)) for i in range(args["threads"])]
-        pt = threading.Thread(target=prober)
-        pt.start()
-        for t in ts: t.start()
-        for t in ts: t.join()
-        stop.set(); pt.join()
+        def probe(n):
+            try:
+                # source ports outside the ephemeral range: a record injected for a probe cannot be consumed by the late accept of
+                # an aborted storm connection that used the same (recycled) ephemeral port
+                c = w.open("other", root, timeout=60, src_port=20000 + n)
+                c.send(rawhttp.build_request("GET", "/probe/%d" % n, [("x-vf-id", "imp-probe-%d" % n)]))
+                st = c.read_response().status
+                c.close()
+                if st != 200:
+                    probe_fail.append({"probe": n, "status": st})
+            except (socket.timeout, TimeoutError):
+                # slow is not a verdict on a loaded machine: counted, and liveness is judged after the storm
+                cnt["patient_probes_slower_than_60s"] = cnt.get("patient_probes_slower_than_60s", 0) + 1
+            except Exception as e:  # noqa
+                probe_fail.append({"probe": n, "error": repr(e)})
+            cnt["patient_probes"] = cnt.get("patient_probes", 0) + 1
+        for rnd in range(args["rounds"]):
+            ts = [threading.Thread(target=burst, args=(i, rnd)) for i in range(args["threads"])]
+            for t in ts: t.start()
+            if rnd % 2:
+                probe(rnd)          # a patient request in the middle of the burst
+            for t in ts: t.join()
+            if rnd % 2 == 0:
+                probe(rnd)          # and one right after it
+            if probe_fail or (rnd % 8 == 7 and w.shim.panics()):
+                break
         res["evaluations"] += cnt.get("impatient_requests", 0) + cnt.get("patient_probes", 0)
+        try:
+            dc = w.shim.call("delay_counts")["counts"]
+            cnt["actor_delay_points_reached"] = sum(v[0] for k, v in dc.items() if k.startswith("actor_"))
+            cnt["actor_delay_points_fired"] = sum(v[1] for k, v in dc.items() if k.startswith("actor_"))
+        except Exception:  # noqa
+            pass
         for p in w.shim.panics():
             res["violations"].append(["panic-at:impatient-clients:%s" % (p.get("location") or "?").split("/src/")[-1], {"panic": p}])
         # liveness afterwards: the listener serves, and the status task publishes (the file is rewritten)
         ok = False
         for k in range(3):
             try:
-                c = w.open("other", root, timeout=10, src_port=19990 + k)
+                c = w.open("other", root, timeout=60, src_port=19990 + k)
                 c.send(rawhttp.build_request("GET", "/probe/final", [("x-vf-id", "imp-probe-final")]))
                 ok = c.read_response().status == 200
                 c.close()
@@ -353,7 +364,7 @@ def impatient_clients(args, scratch):
             res["violations"].append(["status-task-stopped-publishing-after:impatient-clients", {"stamp": s0}])
         cnt["status_file_rewritten_after_storm"] = 1 if stamp() != s0 else 0
         res["nontrivial"] += ["impatient-%d-%d" % (args["shard"], i) for i in range(min(50, cnt.get("impatient_requests", 0) // 100))]
-        res["samples"].append({"layer": "impatient-clients", "threads": args["threads"], "requests": cnt.get("impatient_requests", 0), "probes": cnt.get("patient_probes", 0)})
+        res["samples"].append({"layer": "impatient-clients", "threads": args["threads"], "burst": args["burst"], "rounds": args["rounds"], "requests": cnt.get("impatient_requests", 0), "probes": cnt.get("patient_probes", 0)})
     finally:
         w.close()
     return res
@@ -409,7 +420,7 @@ def run(tier, rep):
         args += [{"shard": 0, "tier": tier, "layer": "sites", "memcheck": True}, {"shard": 1, "tier": tier, "layer": "e2e", "memcheck": True}]
     for res in sandbox.run_many("vf.props.c13", "worker", args, workers=4, timeout=3000):
         rep.merge_worker(res)
-    iargs = [{"shard": i, "tier": tier, "threads": 12, "per_thread": 400 if tier == "quick" else 6000, "rt_threads": [2, 4][i % 2]} for i in range(2 if tier == "quick" else 4)]
+    iargs = [{"shard": i, "tier": tier, "threads": 8, "burst": 12, "rounds": 30 if tier == "quick" else 600, "actor_delays": i % 4 != 3, "rt_threads": [2, 4][i % 2]} for i in range(2 if tier == "quick" else 8)]
     for res in sandbox.run_many("vf.props.c13", "impatient_clients", iargs, workers=len(iargs), timeout=1500):
         rep.merge_worker(res)
     rep.merge_worker(sandbox.run("vf.props.c13", "background_tasks", {"tier": tier, "interval_ms": 25, "rounds": 250 if tier == "quick" else 4000}, timeout=1500))
